@@ -103,3 +103,11 @@ def derives_from(f, n, names, depth=4):
                         return True
         return False
     return go(n, depth)
+
+
+def guarded(run, fn, *a):
+    """evaluate one rule; an AnalysisBroken inside it is recorded without hiding the other rules"""
+    try:
+        fn(*a)
+    except AnalysisBroken as e:
+        run.broke(str(e))
